@@ -34,11 +34,49 @@ def check(run):
     R.rule('C18.zeroread', 'a zero-length payload is never awaited as a read', 2)
     R.rule('C18.nolock', 'the receive path does not acquire the write lock', 2)
     R.rule('C18.sameloop', 'automatic replies are issued before the event is yielded, in the same iteration', 1)
+    R.rule('C18.samehread', 'frames that arrive in the same read as the HTTP response are consumed in that cycle: the '
+                            'header bound is applied to the header only', 5)
+    R.rule('C18.level', 'readiness is level-triggered and byte-granular: no edge-triggered registration, no receive '
+                        'low-water mark; the platform selector is one of the three known classes', 3)
+    from . import C10
+    with R.as_rule('C18.samehread'):
+        C10.limit(R)
+    level(R)
     pending(R)
     count(R)
     loop(R)
     zeroread(R)
     nolock(R)
+
+
+def level(R):
+    bad = []
+    for cx in R.types.ctxs.values():
+        f = cx.func
+        if f.module.name not in ('selectors', 'session') or (f.cls is not None and cx.recv != f.cls.qual):
+            continue
+        for n in own_nodes(f.node):
+            if isinstance(n, ast.Attribute) and n.attr in ('EPOLLET', 'EPOLLONESHOT', 'KQ_EV_CLEAR', 'KQ_EV_ONESHOT'):
+                bad.append((f, n, 'edge-triggered / one-shot readiness flag %s: after one read of at most 64 KiB the rest of a '
+                                  'burst is never signalled again' % U(n)))
+            if isinstance(n, ast.Attribute) and n.attr in ('SO_RCVLOWAT',):
+                bad.append((f, n, 'receive low-water mark %s: the socket is not reported readable while fewer bytes are '
+                                  'queued, so the last byte(s) of a message wait for more traffic' % U(n)))
+    R.ob('C18.level', 'level-triggered, byte-granular readiness', not bad, bad[0][2] if bad else '',
+         func=(bad[0][0] if bad else None), node=(bad[0][1] if bad else None), construct=('readiness flag %s' % U(bad[0][1])) if bad else '')
+    m = R.prog.modules['selectors']
+    cands = set()
+    for v in m.globals.get('PlatformSelector', []):
+        cands.add(U(v))
+    R.ob('C18.level', 'platform selector is one of the confirmed classes', cands <= {'KQueueSelector', 'PollSelector', 'SelectSelector'}
+         and bool(cands), 'PlatformSelector may be %s: only KQueueSelector / PollSelector / SelectSelector have been confirmed to '
+         'report readiness level-triggered' % sorted(cands), func='selectors.SelectorBase.wait', node=None,
+         construct='PlatformSelector candidates %s' % sorted(cands))
+    # registration flags of the poll selector: POLLIN must be among them
+    pi = R.func('selectors.PollSelector.__init__')
+    flags = {n.attr for n in own_nodes(pi.node) if isinstance(n, ast.Attribute) and n.attr.startswith('POLL')}
+    R.ob('C18.level', 'poll() registered for input', 'POLLIN' in flags, 'poll flags %s' % sorted(flags), func=pi, node=None,
+         construct='poll flags')
 
 
 def pending(R):
